@@ -18,6 +18,7 @@ package boltz
 
 import (
 	"bytes"
+	"context"
 	"fmt"
 	"github.com/openziti/foundation/v2/errorz"
 	"github.com/openziti/foundation/v2/stringz"
@@ -1036,8 +1037,22 @@ func (index *fkDeleteCascadeConstraint) ProcessBeforeDelete(ctx *IndexingContext
 		}
 
 		if index.cascadeType == CascadeDelete {
+			// the entity being deleted still exists while its referrers are cascaded; remember it so that a
+			// reference cycle (a self reference is enough) does not recurse into it again
+			inProgress := cascadeDeletesInProgress(ctx.Ctx)
+			self := index.symbol.GetLinkedType().GetEntityType() + "\x00" + string(ctx.RowId)
+			if _, nested := inProgress[self]; !nested {
+				inProgress[self] = struct{}{}
+				defer delete(inProgress, self)
+			}
+
 			cursor := targetStore.IterateValidIds(ctx.Tx(), filter)
 			for cursor.IsValid() {
+				if _, busy := inProgress[targetStore.GetEntityType()+"\x00"+string(cursor.Current())]; busy {
+					cursor.Next()
+					continue
+				}
+
 				if ctx.ErrHolder.SetError(targetStore.DeleteById(ctx.Ctx, string(cursor.Current()))) {
 					return
 				}
@@ -1048,6 +1063,26 @@ func (index *fkDeleteCascadeConstraint) ProcessBeforeDelete(ctx *IndexingContext
 			}
 		}
 	}
+}
+
+type cascadeInProgressKey struct{}
+
+// cascadeDeletesInProgress returns the set of entities (entity type, id) whose cascading delete has started in
+// this mutate context and whose bucket has not been removed yet
+func cascadeDeletesInProgress(ctx MutateContext) map[string]struct{} {
+	if c := ctx.Context(); c != nil {
+		if result, ok := c.Value(cascadeInProgressKey{}).(map[string]struct{}); ok {
+			return result
+		}
+	}
+	result := map[string]struct{}{}
+	ctx.UpdateContext(func(c context.Context) context.Context {
+		if c == nil {
+			c = context.Background()
+		}
+		return context.WithValue(c, cascadeInProgressKey{}, result)
+	})
+	return result
 }
 
 // fkReferrerFilter matches the entities whose fk symbol holds the given id. The stored value is
